@@ -23,6 +23,7 @@ for f in fulltest.log demo_with.log demo_without.log; do tail -c 3000 $OUT/$f > 
 cp $SRC/$ID/patch.diff $SRC/$ID/demo.diff $SRC/$ID/notes.md $OUT/ 2>/dev/null
 S=/var/tmp/yq-seed-$$; rm -rf $S; mkdir -p $S; rsync -a --exclude target --exclude .git /repo/ $S/
 if ! (cd $S && git apply $OUT/patch.diff 2>/tmp/apply_err_$ID.txt); then echo "$ID: patch does not apply to the current tree"; rm -rf $S; exit 3; fi
+unset CARGO_TARGET_DIR
 cd /verif && YQV_EVIDENCE=/var/tmp/yq-scratch-evidence-$ID YQV_REPLAYS=/var/tmp/yq-scratch-replays YQV_REPO=$S ./check $PROP > /tmp/check_$ID.txt 2>&1; RC=$?
 rm -rf $S /var/tmp/yq-scratch-evidence-$ID
 grep -E "^(VIOLATION|UNDECIDED|KNOWN-FINDING|property|obligation failed)" /tmp/check_$ID.txt | cut -c1-300 > $OUT/check_output.txt
